@@ -25,8 +25,11 @@ class Entrez():
 
     def wait_before_request(self):
         requests = self._requests_api_key if self.api_key else self._requests
-        if len(self._request_times) >= requests:
+        prev_time = None
+        # keep only the last `requests` stamps (the limit shrinks when api_key is removed from a client that used one)
+        while len(self._request_times) >= requests:
             prev_time = self._request_times.popleft()
+        if prev_time is not None:
             time_elapsed = perf_counter() - prev_time
             if time_elapsed < self._seconds:
                 sleep(self._seconds - time_elapsed)
